@@ -1,9 +1,9 @@
 /-
-  C03 with fenced code blocks and setext headings (`Proofs/ComposeCode.lean`): non-vacuity.  Two sample forests - a
-  fenced block inside a loose list item inside a quote (and more), setext headings at top level and inside list items -
-  are well-formed by kernel evaluation; the theorems apply to them; evaluating the model on the written text in the
-  kernel, independently of the theorems, gives the same HTML; the real `mistletoe.markdown` returns these strings for
-  these texts.  Then what the predicates reject, and the two counterexamples that shaped them.
+  C03 with fenced code blocks and setext headings (`Proofs/ComposeCode.lean`): non-vacuity, part 1 (fenced code blocks;
+  setext headings are in `Proofs/ComposeCode3.lean`).  A sample forest - a fenced block inside a loose list item inside a
+  quote, and more - is well-formed by kernel evaluation; the theorems apply to it; evaluating the model on the written
+  text in the kernel, independently of the theorems, gives the same HTML; the real `mistletoe.markdown` returns this
+  string for this text.  Then what the predicate rejects and accepts, and the counterexample that shaped it.
 -/
 import Mistletoe.Proofs.ComposeCode
 namespace Mistletoe.ComposeC
@@ -71,68 +71,14 @@ example : T3.ok (.list false 0 '-' 1 false [[.fence 2 (L "```") [] [] (L "```\n"
     T3.oks [.list false 0 '-' 1 false [[.para [L "a\n"]]], .fence 0 (L "```") [] [] (L "```\n")] = true := by
   refine ⟨?_, ?_, ?_⟩ <;> decide +kernel
 
-/-- setext headings: two text lines over `===`; one line over `---` (NOT a paragraph and a thematic break); inside the
-    items of a loose bullet list (underline ` -  `, then a fenced block; underline indented by three spaces); a thematic
-    break `---` behind the list; a quote; a tight ordered list whose only item is a heading -/
-def sampleD : List T3 := [
-  .setext 1 [L "Title line one\n", L "and two\n"] (L "===\n"),
-  .para [L "text\n"],
-  .setext 2 [L "Sub & heading\n"] (L "---\n"),
-  .list false 0 '-' 1 true [
-    [.setext 2 [L "in item\n"] (L " -  \n"), .fence 0 (L "```") [] [L "x\n"] (L "```\n")],
-    [.setext 1 [L "second\n"] (L "   =====\n")]],
-  .hr (L "---\n"),
-  .quote false [.para [L "quoted\n"]],
-  .list true 3 '.' 2 false [[.setext 2 [L "tight\n"] (L "--\n")]]]
-
-theorem sampleD_ok : T3.oks sampleD = true := by decide +kernel
-
-example : (writes3 sampleD).flatten =
-    L "Title line one\nand two\n===\n\ntext\n\nSub & heading\n---\n\n- in item\n   -  \n\n  ```\n  x\n  ```\n\n- second\n     =====\n\n---\n\n> quoted\n\n3.  tight\n    --\n" := by
+/-- **A content line that begins like the fence** (the defect this proof found, repaired in /repo by 99c8328): the
+    specification lets a closing fence be followed by spaces only, so in "```", "```abc", "x", "```" the second line is
+    content.  The pinned `CodeFence.read` asked only that the stripped line begin with the opening fence string and be one
+    word, took "```abc" for the closing line and went on with a paragraph and a second (unclosed) fence.  After the repair
+    such a line is in the fragment and the theorem covers it. -/
+example : Config.renderHtml {} 100 (L "```\n```abc\nx\n```\n") = some (L "<pre><code>```abc\nx\n</code></pre>\n") := by
   decide +kernel
-
-/-- `mistletoe.markdown` returns this string for the text above -/
-def htmlD : Str :=
-  L "<h1>Title line one\nand two</h1>\n<p>text</p>\n<h2>Sub &amp; heading</h2>\n<ul>\n<li>\n<h2>in item</h2>\n<pre><code>x\n</code></pre>\n</li>\n<li>\n<h1>second</h1>\n</li>\n</ul>\n<hr />\n<blockquote>\n<p>quoted</p>\n</blockquote>\n<ol start=\"3\">\n<li>\n<h2>tight</h2>\n</li>\n</ol>\n"
-
-example : htmlOf3 {} sampleD = htmlD ∧ needs3 sampleD = 325 := by
-  refine ⟨?_, ?_⟩ <;> decide +kernel
-
-/-- an instance of `C03_code_html_partial`, and the same fact by evaluation -/
-example : Config.renderHtml {} 325 (writes3 sampleD).flatten = some htmlD := by
-  rw [C03_code_html_partial {} sampleD sampleD_ok (by decide) 325 (by decide +kernel)]
-  decide +kernel
-example : Config.renderHtml {} 325 (writes3 sampleD).flatten = some htmlD := by decide +kernel
-
-/-- every underline of the specification's shape with at most 3 + 6 + 3 characters passes `ulOk` (192 lines): the facts
-    about the scanners that `ulOk` lists hold for them -/
-def ulAll : List (Nat × Str) :=
-  [(1, '='), (2, '-')].flatMap (fun p => (List.range 4).flatMap (fun n => (List.range 6).flatMap (fun m => (List.range 4).map (fun t =>
-    (p.1, sp n ++ List.replicate (m + 1) p.2 ++ sp t ++ ['\n'])))))
-example : ulAll.length = 192 ∧ ulAll.all (fun p => ulOk p.1 p.2) = true := by
-  refine ⟨?_, ?_⟩ <;> decide +kernel
-/-- … and it rejects: four spaces, a mixed run, text behind the run, the wrong level, no run -/
-example : [ulOk 1 (L "    ===\n"), ulOk 1 (L "==-\n"), ulOk 2 (L "--- x\n"), ulOk 2 (L "===\n"), ulOk 1 (L "\n"), ulOk 2 (L "- -\n")] =
-    List.replicate 6 false := by decide +kernel
-
-/-- **Why no setext heading inside a quote** (recorded finding): `Quote.read` parses its content with
-    `Paragraph.parse_setext` off; text and underline come out as one paragraph (the real `mistletoe.markdown` returns the
-    same string; the specification gives `<blockquote><h1>a</h1></blockquote>`).  `T3.ok` excludes it. -/
-example : Config.renderHtml {} 100 (L "> a\n> ===\n") = some (L "<blockquote>\n<p>a\n===</p>\n</blockquote>\n") := by
-  decide +kernel
-example : T3.oks [.quote false [.setext 1 [L "a\n"] (L "===\n")]] = false ∧
-    T3.oks [.quote false [.list false 0 '-' 1 false [[.setext 1 [L "a\n"] (L "===\n")]]]] = false ∧
-    T3.oks [.list false 0 '-' 1 false [[.setext 1 [L "a\n"] (L "===\n")]]] = true := by
-  refine ⟨?_, ?_, ?_⟩ <;> decide +kernel
-
-/-- **Why a content line must not pass `CodeFence.read`'s closing test** (new finding): the specification lets a closing
-    fence be followed by spaces only, so in "```", "```abc", "x", "```" the second line is content
-    (`<pre><code>```abc\nx\n</code></pre>`); `CodeFence.read` asks only that the stripped line begin with the opening
-    fence string and be one word, takes "```abc" for the closing line, and goes on with a paragraph and a second
-    (unclosed) fence.  The real `mistletoe.markdown` returns the same string as the model (also with tildes). -/
-example : Config.renderHtml {} 100 (L "```\n```abc\nx\n```\n") = some (L "<pre><code></code></pre>\n<p>x</p>\n<pre><code></code></pre>\n") := by
-  decide +kernel
-example : T3.ok (.fence 0 (L "```") [] [L "```abc\n", L "x\n"] (L "```\n")) = false := by decide +kernel
+example : T3.ok (.fence 0 (L "```") [] [L "```abc\n", L "x\n"] (L "```\n")) = true := by decide +kernel
 
 #print axioms C03_code_block_phase_partial
 #print axioms C03_code_document_partial
